@@ -124,9 +124,18 @@ func VerifH_C11_events() {
 	nev := vpParam("events", 4)
 	for ev := 0; ev < nev; ev++ {
 		switch vpRange("event", 0, 2) {
-		case 0: // subscribe
-			if len(subs) == 2 {
+		case 0: // subscribe (at most two live subscriptions, three in all)
+			live := 0
+			for _, v := range subs {
+				if !v.cancelled {
+					live++
+				}
+			}
+			if live == 2 || len(subs) == vpParam("maxsubs", 3) {
 				continue
+			}
+			if len(subs) == 2 {
+				vpReach("subscribed-after-a-cancellation")
 			}
 			best := vpU32("bestHeight") // any 32-bit height
 			if vpParam("races", 1) == 1 {
@@ -157,8 +166,16 @@ func VerifH_C11_events() {
 		case 1: // a chain event
 			src.emit() // must not block even though nobody reads
 			vpReach("emitted")
-		case 2: // cancel the oldest live subscription
-			for _, v := range subs {
+		case 2: // cancel the oldest (or the newest) live subscription
+			newest := vpParam("cancelnewest", 1) == 1 && vpRange("cancelNewest", 0, 1) == 1
+			order := subs
+			if newest {
+				order = nil
+				for k := len(subs) - 1; k >= 0; k-- {
+					order = append(order, subs[k])
+				}
+			}
+			for _, v := range order {
 				if !v.cancelled {
 					v.sub.Cancel()
 					v.cancelled = true
@@ -176,10 +193,7 @@ func VerifH_C11_events() {
 	}
 	for i, v := range subs {
 		v.drain()
-		tag := "sub0:"
-		if i == 1 {
-			tag = "sub1:"
-		}
+		tag := []string{"sub0:", "sub1:", "sub2:"}[i]
 		vpCheckSub(v, src.height, stopped, tag)
 	}
 }
